@@ -2,6 +2,7 @@ package harness
 
 import (
 	"errors"
+	"io"
 	"time"
 
 	tally "github.com/uber-go/tally/v4"
@@ -120,12 +121,20 @@ func (r *RecReporterCloser) Close() error {
 type RecCached struct {
 	seam
 	handles []*handle
+	// inner, if set, receives every call after it was recorded (the recording
+	// reporter then is a tap in front of a real reporter, e.g. M3).
+	inner tally.CachedStatsReporter
 }
 
 // RecCachedCloser additionally implements io.Closer.
 type RecCachedCloser struct{ RecCached }
 
 type handle struct {
+	inC    tally.CachedCount
+	inG    tally.CachedGauge
+	inT    tally.CachedTimer
+	inH    tally.CachedHistogram
+	inB    tally.CachedHistogramBucket
 	r      *RecCached
 	id     int
 	kind   string
@@ -143,6 +152,9 @@ func (r *RecCached) Flush() {
 	r.pre()
 	e := r.env.Log.begin(r.env.Sim, EvFlush, "", nil)
 	r.enter(e)
+	if r.inner != nil {
+		r.inner.Flush()
+	}
 	r.env.Log.end(e)
 }
 
@@ -166,6 +178,9 @@ func (r *RecCached) AllocateCounter(name string, tags map[string]string) tally.C
 	r.pre()
 	h, e := r.alloc(EvAllocC, name, tags)
 	r.enter(e)
+	if r.inner != nil {
+		h.inC = r.inner.AllocateCounter(name, tags)
+	}
 	r.env.Log.end(e)
 	return h
 }
@@ -174,6 +189,9 @@ func (r *RecCached) AllocateGauge(name string, tags map[string]string) tally.Cac
 	r.pre()
 	h, e := r.alloc(EvAllocG, name, tags)
 	r.enter(e)
+	if r.inner != nil {
+		h.inG = r.inner.AllocateGauge(name, tags)
+	}
 	r.env.Log.end(e)
 	return h
 }
@@ -182,6 +200,9 @@ func (r *RecCached) AllocateTimer(name string, tags map[string]string) tally.Cac
 	r.pre()
 	h, e := r.alloc(EvAllocT, name, tags)
 	r.enter(e)
+	if r.inner != nil {
+		h.inT = r.inner.AllocateTimer(name, tags)
+	}
 	r.env.Log.end(e)
 	return h
 }
@@ -191,6 +212,9 @@ func (r *RecCached) AllocateHistogram(name string, tags map[string]string, bucke
 	h, e := r.alloc(EvAllocH, name, tags)
 	e.Spec = specOf(buckets)
 	r.enter(e)
+	if r.inner != nil {
+		h.inH = r.inner.AllocateHistogram(name, tags, buckets)
+	}
 	r.env.Log.end(e)
 	return h
 }
@@ -200,6 +224,9 @@ func (h *handle) ReportCount(v int64) {
 	e := h.r.env.Log.begin(h.r.env.Sim, EvCounter, h.name, h.tags)
 	e.Cached, e.Handle, e.I = true, h.id, v
 	h.r.enter(e)
+	if h.inC != nil {
+		h.inC.ReportCount(v)
+	}
 	h.r.env.Log.end(e)
 }
 
@@ -208,6 +235,9 @@ func (h *handle) ReportGauge(v float64) {
 	e := h.r.env.Log.begin(h.r.env.Sim, EvGauge, h.name, h.tags)
 	e.Cached, e.Handle, e.F = true, h.id, f64bits(v)
 	h.r.enter(e)
+	if h.inG != nil {
+		h.inG.ReportGauge(v)
+	}
 	h.r.env.Log.end(e)
 }
 
@@ -216,6 +246,9 @@ func (h *handle) ReportTimer(d time.Duration) {
 	e := h.r.env.Log.begin(h.r.env.Sim, EvTimer, h.name, h.tags)
 	e.Cached, e.Handle, e.I = true, h.id, int64(d)
 	h.r.enter(e)
+	if h.inT != nil {
+		h.inT.ReportTimer(d)
+	}
 	h.r.env.Log.end(e)
 }
 
@@ -227,6 +260,9 @@ func (h *handle) ValueBucket(lo, hi float64) tally.CachedHistogramBucket {
 	r.addHandle(b)
 	e.Cached, e.Handle, e.Parent, e.Lo, e.Hi = true, b.id, h.id, lo, hi
 	r.enter(e)
+	if h.inH != nil {
+		b.inB = h.inH.ValueBucket(lo, hi)
+	}
 	r.env.Log.end(e)
 	return b
 }
@@ -239,6 +275,9 @@ func (h *handle) DurationBucket(lo, hi time.Duration) tally.CachedHistogramBucke
 	r.addHandle(b)
 	e.Cached, e.Handle, e.Parent, e.LoD, e.HiD = true, b.id, h.id, lo, hi
 	r.enter(e)
+	if h.inH != nil {
+		b.inB = h.inH.DurationBucket(lo, hi)
+	}
 	r.env.Log.end(e)
 	return b
 }
@@ -253,6 +292,9 @@ func (h *handle) ReportSamples(v int64) {
 	e.Cached, e.Handle, e.Parent, e.I = true, h.id, h.parent, v
 	e.Lo, e.Hi, e.LoD, e.HiD = h.lo, h.hi, h.loD, h.hiD
 	h.r.enter(e)
+	if h.inB != nil {
+		h.inB.ReportSamples(v)
+	}
 	h.r.env.Log.end(e)
 }
 
@@ -260,6 +302,9 @@ func (r *RecCachedCloser) Close() error {
 	r.pre()
 	e := r.env.Log.begin(r.env.Sim, EvRepClose, "", nil)
 	r.enter(e)
+	if c, ok := r.inner.(io.Closer); ok {
+		c.Close()
+	}
 	r.env.Log.end(e)
 	if r.env.Prog.Cfg.Faults.CloseErr {
 		return errReporterClose
